@@ -804,6 +804,12 @@ def plan_C09(tier, seed):
             for _ in range(rng.randint(1, 5)):
                 ops.insert(rng.randrange(1, len(ops)), {"op": "reset", "i": 1})
             jobs.append(scripted("%s_canc%d_n%d" % (kind, rep, n), {1: a}, ops, noovf=False, invariants=inv))
+    # a very long window: the mean-inside-window bound for period 100 000 (window minimum / maximum from Streams.tla)
+    for kind in ("WMA", "SMA"):
+        n = 100000
+        segs = [([{"op": "s", "x": 10}, {"op": "s", "x": 11}], 52000, 0), ([{"op": "s", "x": 14}, {"op": "s", "x": 12}, {"op": "s", "x": 13}], 3000, 0)]
+        tot = 2 * 52000 + 3 * 3000
+        jobs.append(stream_job("%s_window_100000" % kind, kind, cfg(kind, n), segs, {1, 2, 1000, n - 1, n, n + 1, n + 3000, tot - 1, tot}, prop="C09"))
     return {
         "jobs": jobs, "parallel": 12,
         "rule": "spec invariants NonNeg / EmaConvex (variance, MAD, ATR >= 0; histogram = line - signal; lower <= average <= upper for multiplier >= 0; an EMA is "
